@@ -21,24 +21,7 @@ def ext2sp1 (s : String) : Option String :=
 def sp2ext (ids : List String) : Outcome (List String) := Outcome.ofOption (ids.mapM sp2ext1)
 def ext2sp (ids : List String) : Outcome (List String) := Outcome.ofOption (ids.mapM ext2sp1)
 
-/-- `transform.GetVoxelIDfromSpatialID`: indexes fields 1, 2, 4 without a length check, ignores parse
-errors (`ParseInt` yields 0 on a syntax error; on a range error the clamped value). -/
-def parseInt64Lossy (s : String) : Int :=
-  match parseInt64 s with
-  | some v => v
-  | none =>
-    -- range error ⇒ clamped; syntax error ⇒ 0
-    let cs := s.toList
-    let (neg, ds) : Bool × List Char :=
-      match cs with
-      | '-' :: r => (true, r)
-      | '+' :: r => (false, r)
-      | r => (false, r)
-    if ds.isEmpty then 0 else
-    match parseDigits ds 0 with
-    | none => 0
-    | some _ => if neg then -(2 ^ 63 : Int) else (2 ^ 63 : Int) - 1
-
+/-- `transform.GetVoxelIDfromSpatialID`: indexes fields 1, 2, 4 without a length check and ignores parse errors. -/
 def voxelId (s : String) : Outcome (List Int) :=
   match splitSlash s with
   | _ :: x :: y :: _ :: f :: _ => .ok [parseInt64Lossy x, parseInt64Lossy y, parseInt64Lossy f]
